@@ -21,7 +21,7 @@ ASSUMPTIONS = ["the methods under test are straight-line polynomial code (read),
 CONFIGS = ['scipy']
 BUDGET = {'quick': 24000, 'thorough': 500000}
 EXHAUSTIVE_NOTE = "all 2^(2(deg+1)) two-valued component assignments for deg 1,2,3 (16+64+256 cases) x 5 t values x all methods"
-REQUIRED = ['grid', 'float:L', 'float:Q', 'float:C']
+REQUIRED = ['grid', 'float:L', 'float:Q', 'float:C', 'reassigned_control_points']
 
 EPS = 2.0 ** -52
 GRID_T = [F(0), F(1), F(1, 2), F(-1, 4), F(5, 4)]
@@ -40,7 +40,10 @@ def strategy(tier, config):
     def s(draw):
         b = draw(gen.bezier_spec())
         ts = draw(st.lists(st.one_of(gen.ts_unit, gen.floats_in(-0.25, 1.25)), min_size=1, max_size=3))
-        return {'kind': 'float', 'spec': b['spec'], 'tag': b['tag'], 'ts': ts}
+        # hist: 0 = fresh object; 1/2 = the object held other control points first, was queried (poly/points/
+        # length), then had its control points reassigned (2: length() again before the checks)
+        hist = draw(st.sampled_from([0, 0, 0, 1, 2]))
+        return {'kind': 'float', 'spec': b['spec'], 'tag': b['tag'], 'ts': ts, 'hist': hist}
     return s()
 
 
@@ -132,9 +135,24 @@ def check_float(case, ctx):
     kind = spec[0]
     pts = spec[1:]
     deg = len(pts) - 1
-    seg = gen.build_seg(spec)
-    fpts = [R.fpt(p) for p in pts]
     cpts = [gen.C(p) for p in pts]
+    hist = case.get('hist', 0)
+    if hist:
+        other = [spec[0]] + [[p[0] * 0.5 + 1.0, p[1] * 2.0 - 3.0] for p in pts]
+        if kind == 'L' and other[1] == other[2]:
+            other[2] = [other[2][0] + 1.0, other[2][1]]
+        seg = gen.build_seg(other)
+        seg.poly(); seg.points([0.25, 0.75]); seg.point(0.5); seg.length(); seg.bpoints()
+        names = {'L': ['start', 'end'], 'Q': ['start', 'control', 'end'],
+                 'C': ['start', 'control1', 'control2', 'end']}[kind]
+        for nm, z in zip(names, cpts):
+            setattr(seg, nm, z)
+        if hist == 2:
+            seg.length()
+        ctx.count('reassigned_control_points')
+    else:
+        seg = gen.build_seg(spec)
+    fpts = [R.fpt(p) for p in pts]
     ctx.count('float:' + kind)
     ctx.count('class:' + case['tag'])
     S = sum(abs(c) for c in cpts)
